@@ -17,11 +17,15 @@ import (
 // cpuRig holds one instance of each interpreter with the whole 16 MiB mapped
 // onto a switchable instrumented image. One rig per worker goroutine.
 type cpuRig struct {
-	bus  *bus.Bus
-	bm   *mem.BusMem
-	prim cpu65c816.CPU
-	alt  *cpualt.CPU
-	am   *mem.Image // image behind the alternative CPU
+	bus *bus.Bus
+	// buses: two buses forked (copied by value) from one half-built template and completed separately;
+	// the CPU is wired to buses[cur] and re-wired to the other now and then (InitFrom / the Bus field)
+	buses [2]*bus.Bus
+	cur   int
+	bm    *mem.BusMem
+	prim  cpu65c816.CPU
+	alt   *cpualt.CPU
+	am    *mem.Image // image behind the alternative CPU
 }
 
 // segDev is one of the 2^20 devices that together map the whole 16 MiB: like a memory.RAM sized to
@@ -29,11 +33,15 @@ type cpuRig struct {
 type segDev struct {
 	seg uint32
 	g   *cpuRig
+	bus int8 // which of the rig's buses it was attached to (-1: attached to the template both were copied from)
 }
 
 func (d *segDev) check(a uint32) {
 	if a>>4 != d.seg {
 		panic(fmt.Errorf("device of segment $%05x was handed address $%06x (index out of its range)", d.seg, a))
+	}
+	if d.bus >= 0 && int(d.bus) != d.g.cur {
+		panic(fmt.Errorf("address $%06x was served by a device attached to bus #%d only, but the CPU is wired to bus #%d", a, d.bus, d.g.cur))
 	}
 }
 func (d *segDev) Read(a uint32) byte     { d.check(a); return d.g.bm.M.RdAddr(a) }
@@ -64,15 +72,33 @@ func newRig() *cpuRig {
 		g.alt = new(cpualt.CPU)
 		g.alt.Init()
 	}
-	g.bus, _ = bus.New()
-	// the whole bus is mapped, by one device per 16-byte segment
-	devs := make([]segDev, 1<<20)
+	// the whole bus is mapped, by one device per 16-byte segment. Banks $00-$7F are attached to a
+	// template bus; two buses are then copied from it by value (a Bus is a value type) and each gets its
+	// own devices for banks $80-$FF
+	tmpl, _ := bus.New()
+	devs := make([]segDev, 1<<19)
 	for i := range devs {
-		devs[i] = segDev{uint32(i), g}
-		if err := g.bus.Attach(&devs[i], "seg", uint32(i)<<4, uint32(i)<<4|15); err != nil {
+		devs[i] = segDev{uint32(i), g, -1}
+		if err := tmpl.Attach(&devs[i], "seg", uint32(i)<<4, uint32(i)<<4|15); err != nil {
 			panic(err)
 		}
 	}
+	var own [2][]segDev
+	for bi := 0; bi < 2; bi++ {
+		g.buses[bi] = new(bus.Bus)
+		*g.buses[bi] = *tmpl
+		own[bi] = make([]segDev, 1<<19)
+	}
+	for i := 0; i < 1<<19; i++ {
+		seg := uint32(i) + 1<<19
+		for bi := 0; bi < 2; bi++ { // alternately, so that the two forks grow side by side
+			own[bi][i] = segDev{seg, g, int8(bi)}
+			if err := g.buses[bi].Attach(&own[bi][i], "seg", seg<<4, seg<<4|15); err != nil {
+				panic(err)
+			}
+		}
+	}
+	g.bus = g.buses[0]
 	if !altFirst {
 		g.alt = new(cpualt.CPU)
 		g.alt.Init()
@@ -99,7 +125,22 @@ func newRig() *cpuRig {
 // register copies with garbage (states reachable by ordinary programs).
 func (g *cpuRig) loadPrim(s ref.State, stale bool, r *vf.Rng) {
 	c := &g.prim
-	if c.Bus == g.bus && r.Intn(2) == 0 {
+	if g.buses[0] != nil && c.Bus == g.bus && r.Intn(6) == 0 {
+		// re-wire the CPU to the rig's other bus: through InitFrom, or by assigning the exported field
+		g.cur ^= 1
+		nb := g.buses[g.cur]
+		if r.Bool() {
+			tmp := *c
+			c.InitFrom(&tmp, nb)
+		} else {
+			c.Bus = nb
+		}
+		g.bus = nb
+		c.AllCycles, c.Cycles, c.Stopped, c.PRK, c.PPC, c.WDM = 0, 0, false, 0, 0, 0
+		c.OnWDM, c.OnPC = nil, nil
+		c.B, c.E, c.Interrupt = 0, 0, 0
+		c.StepInfo = cpu65c816.StepInfo{}
+	} else if c.Bus == g.bus && r.Intn(2) == 0 {
 		// reuse the CPU object the way a caller poking registers between runs does
 		// (System.SetPC does the same): every exported field is assigned, nothing is re-initialised,
 		// so state the interpreter hides outside its registers survives into this case
